@@ -187,15 +187,24 @@ let e2e_case (cfg : (string * string) list) (ops : string list) : unit =
     (* delivery *)
     rcv.slots <- lpf_remove_expired (zi !now) rcv.slots;
     let got = ref 0 in
-    List.iter (fun pls ->
-      let arr = Array.of_list pls in
-      List.iter (fun j ->
-        match lpl_poll ctx (zi timeout) { ar_time = zi !now; ar_lls = snd.ll; ar_lld = ll_dst; ar_payload = arr.(j) } rcv.slots with
-        | Ok (ss, d) ->
-            rcv.slots <- ss;
-            (match d with Some x -> incr got; Printf.printf "rx %s %s\n" dir (hex_of_bytes x) | None -> ())
-        | Err _ -> ()
-        | Panic -> Printf.printf "rx %s MODEL-PANIC\n" dir) (schedule sched (Array.length arr))) !all;
+    let deliver (o : z list) =
+      match lpl_poll ctx (zi timeout) { ar_time = zi !now; ar_lls = snd.ll; ar_lld = ll_dst; ar_payload = o } rcv.slots with
+      | Ok (ss, d) ->
+          rcv.slots <- ss;
+          (match d with Some x -> incr got; Printf.printf "rx %s %s\n" dir (hex_of_bytes x) | None -> ())
+      | Err _ -> ()
+      | Panic -> Printf.printf "rx %s MODEL-PANIC\n" dir in
+    if sched = "il" then begin
+      (* the datagrams of a burst interleaved frame by frame (same order as the harness) *)
+      let gs = List.map Array.of_list !all in
+      let m = List.fold_left (fun a g -> max a (Array.length g)) 0 gs in
+      for i = 0 to m - 1 do
+        List.iter (fun g -> if i < Array.length g then deliver g.(i)) gs
+      done
+    end else
+      List.iter (fun pls ->
+        let arr = Array.of_list pls in
+        List.iter (fun j -> deliver arr.(j)) (schedule sched (Array.length arr))) !all;
     if !got = 0 then Printf.printf "rx %s -\n" dir;
     !got in
   List.iter (fun op ->
@@ -206,7 +215,8 @@ let e2e_case (cfg : (string * string) list) (ops : string list) : unit =
         a.slots <- lpf_remove_expired (zi !now) a.slots;
         b.slots <- lpf_remove_expired (zi !now) b.slots
     | ("udp" | "burst" | "echo" | "tcp") :: _ ->
-        let sched = if List.hd t = "burst" || List.hd t = "tcp" then "io" else kv t "sched" in
+        let sched = if List.hd t = "burst" && List.mem "il=1" t then "il"
+                    else if List.hd t = "burst" || List.hd t = "tcp" then "io" else kv t "sched" in
         let got = send "ab" a b (if mcast then bcast else llb) (split_refs (kv t "ref")) sched in
         let rr = split_refs (kv t "rref") in
         (* the receiver only answers what it received (a TCP peer may also speak on its own: delayed ACK, FIN) *)
